@@ -91,6 +91,9 @@ type Spec struct {
 	FrameEq func(in, out Frame) bool
 	// Hostile optionally draws a grammar-aware hostile packet payload.
 	Hostile func(r *rand.Rand) []byte
+	// FrameOfSize builds a valid single-unit frame of exactly n payload bytes (optional): used by
+	// MaxSizeBoundary (a frame of exactly the documented maximum round-trips, one byte more is refused).
+	FrameOfSize func(n int) Frame
 	// KnownKeys maps a failing clause to a known-finding key for this codec (optional).
 	KnownKey func(clause string, detail string) string
 }
@@ -1052,6 +1055,83 @@ func RunAll(c *corr.Ctx, s *Spec) {
 			CapBoundary(c, s, fmt.Sprintf("%s-cap-%d", s.Name, i))
 		}
 	}
+	if c.Want("C03") || c.Want("C08") {
+		MaxSizeBoundary(c, s)
+	}
+}
+
+// MaxSizeInput is the replayable description of a MaxSizeBoundary case.
+type MaxSizeInput struct {
+	Mode  string `json:"mode"` // "maxsize"
+	Codec string `json:"codec"`
+	Size  int    `json:"size"`
+	Max   int    `json:"max"`
+}
+
+// MaxSizeBoundary: the documented maximum is inclusive.  A single-unit frame of exactly
+// MaxFrameBytes bytes, encoded by the real encoder at the default payload limit and fed to a fresh
+// decoder, comes back intact at its last packet (C03: it is a valid frame); one byte more is never
+// returned (C08).  No model comparison (the op lines would carry megabytes); property oracle only.
+// Added after a mutation trial (`>` -> `>=` in a cap test) that only the bridge theorem noticed.
+func MaxSizeBoundary(c *corr.Ctx, s *Spec) {
+	if s.FrameOfSize == nil || s.MaxFrameBytes <= 0 {
+		return
+	}
+	for _, d := range []int{0, 1} {
+		n := s.MaxFrameBytes + d
+		in := &MaxSizeInput{Mode: "maxsize", Codec: s.Name, Size: n, Max: 1450}
+		p := EncParams{PT: 96, SSRC: 0x11223344, Seq0: 65000, Max: 1450}
+		inst, err := s.New(c.Rng, p)
+		if err != nil || inst.Enc == nil {
+			return
+		}
+		r := &runner{c: c, s: s, inst: inst, p: p, in: in}
+		f := s.FrameOfSize(n)
+		var pkts []*rtp.Packet
+		var eerr error
+		func() {
+			defer func() {
+				if x := recover(); x != nil {
+					eerr = fmt.Errorf("panic: %v", x)
+				}
+			}()
+			pkts, eerr = inst.Enc.Encode(cloneFrame(f))
+		}()
+		if eerr != nil || len(pkts) == 0 {
+			if d == 0 {
+				r.viol("C03", "a frame of exactly the documented maximum size is a valid frame", "maxsize-encode", fmt.Sprintf("encoder refused a %d-byte frame: %v", n, eerr))
+			}
+			continue
+		}
+		dec := inst.NewDec()
+		var got Frame
+		var last string
+		returned := 0
+		func() {
+			defer func() {
+				if x := recover(); x != nil {
+					last = fmt.Sprintf("panic: %v", x)
+				}
+			}()
+			for _, q := range pkts {
+				out, derr := dec.Decode(q)
+				if derr == nil && out != nil {
+					got = out
+					returned++
+				} else if derr != nil {
+					last = s.Classify(derr)
+				}
+			}
+		}()
+		c.Dist(fmt.Sprintf("%s.maxsize%+d", s.Name, d))
+		if d == 0 && (returned != 1 || !r.eq(f, got)) {
+			r.viol("C03", "decoding the packets of a valid frame returns the original frame (a frame of exactly the documented maximum)", "maxsize-roundtrip",
+				fmt.Sprintf("%d-byte frame in %d packets: returned %d frames, last answer %s", n, len(pkts), returned, last))
+		}
+		if d == 1 && returned > 0 && frameBytes(got) > s.MaxFrameBytes {
+			r.viol("C08", "no returned frame exceeds the documented maximum", "oversize-frame", fmt.Sprintf("a %d-byte frame was returned (maximum %d)", frameBytes(got), s.MaxFrameBytes))
+		}
+	}
 }
 
 // ---- replay --------------------------------------------------------------------------------
@@ -1066,6 +1146,9 @@ func Replay(c *corr.Ctx, s *Spec, raw []byte) bool {
 		return false
 	}
 	switch probe.Mode {
+	case "maxsize":
+		MaxSizeBoundary(c, s)
+		return true
 	case "roundtrip", "fault":
 		var in RoundTripInput
 		if jsonUnmarshal(raw, &in) != nil {
